@@ -43,6 +43,19 @@ def b2s (b : Bool) : String := if b then "1" else "0"
 
 def step (s : St) (ws : List String) : St × String :=
   match ws with
+  | "txcache" :: opts =>
+    -- size 0 is replaced by the default set size (10) in NewTxCache
+    let k := ((parseKV opts "size").bind String.toNat?).getD 0
+    let k := if k == 0 then 10 else k
+    let n := ((parseKV opts "n").bind String.toNat?).getD 0
+    let nilAt := (parseKV opts "nil").bind String.toNat?
+    if n > 3000 then (s, "bad-op") else
+    let arrivals : List (Option Nat) := (List.range n).map (fun i => if some i == nilAt then none else some i)
+    let sets := txCacheRun k arrivals
+    -- the arrivals are numbered in order: the concatenation of the sets must be ascending without a gap
+    let flat := sets.flatten
+    let inOrder := flat == arrivals.filterMap id
+    (s, "sets=[" ++ joinSp (sets.map fun l => toString l.length) ++ "] order=" ++ (if inOrder then "1" else "0"))
   | ["reset"] => ({}, "ok")
   | "new" :: opts =>
     let bs := ((parseKV opts "batch").bind String.toNat?).getD 0
